@@ -4,7 +4,8 @@ import PsV.Proofs.FitsBytes
 # C08 — interrupted or failing writes never pass as success or load as another table
 
 Property theorems only.  Part 1: control flow of the writer (`PsV.C08.writeFits` etc., the definitions the driver
-executes against the step traces observed in the real code).
+executes against the step traces observed in the real code; `writeFits`/`writeFitsMem` are the code with
+`fixes/C08-1.diff`, `C08-2.diff` and `C08-3.diff` applied).
 -/
 namespace PsV
 open PsV.C08
@@ -15,7 +16,7 @@ theorem C08_success_implies_all_ok (sh : Shape) (env : Env)
     (h : (writeFits sh env).outcome = .success) :
     (writeFits sh env).trace = (fullSteps .init sh).map (fun s => (s, true)) ∧
     ∀ j, j < (fullSteps .init sh).length → env j = true := by
-  unfold writeFits at h ⊢
+  unfold writeFits writeFitsOn at h ⊢
   by_cases h0 : env 0 = true
   · simp only [h0, Bool.not_true, Bool.false_eq_true, if_false] at h ⊢
     by_cases hc : (runCore env (coreSteps sh) 1).1 = true
@@ -47,7 +48,7 @@ theorem C08_mem_success_implies_all_ok (sh : Shape) (env : Env)
     (h : (writeFitsMem sh env).outcome = .success) :
     (writeFitsMem sh env).trace = (fullSteps .imem sh).map (fun s => (s, true)) ∧
     ∀ j, j < (fullSteps .imem sh).length → env j = true := by
-  unfold writeFitsMem at h ⊢
+  unfold writeFitsMem writeFitsMemOn at h ⊢
   by_cases h0 : env 0 = true
   · simp only [h0, Bool.not_true, Bool.false_eq_true, if_false] at h ⊢
     by_cases hc : (runCore env (coreSteps sh) 1).1 = true
@@ -103,6 +104,37 @@ theorem C08_close_error_reported :
     (writeFits ⟨1, true, 0, true⟩ (fun i => i != 12)).outcome = .failure ∧
     (Step.remove, true) ∈ (writeFits ⟨1, true, 0, true⟩ (fun i => i != 12)).trace := by decide
 
+/-- C08 (call order of the repaired `write_fits_core`): every key of a header is written before any pixel data.
+    cfitsio therefore never has to insert a header block in front of data which are already in the file — the one
+    place where it drops I/O errors (`ffiblk` treats every status of its copy loop as end-of-file): with the order as
+    found a failing `fwrite` during that shifting was reported as success and the file loaded as a different table. -/
+theorem C08_keys_before_data (sh : Shape) (i j : Nat)
+    (hi : (coreSteps sh)[i]? = some .ppx) (hj : (coreSteps sh)[j]? = some .pky) : j < i := by
+  obtain ⟨pre, post, e, h1, h2⟩ : ∃ pre post, coreSteps sh = pre ++ post ∧ Step.ppx ∉ pre ∧ Step.pky ∉ post := by
+    refine ⟨[.crim, .pky] ++ List.replicate sh.ndim .pky ++ (if sh.hasPeriods then List.replicate sh.ndim .pky else [])
+              ++ List.replicate sh.naux .pky,
+            [.ppx] ++ (List.replicate sh.ndim [Step.crim, .uky, .ppx]).flatten
+              ++ (if sh.hasExtents then [.crim, .uky, .ppx] else []), ?_, ?_, ?_⟩
+    · simp only [coreSteps, List.append_assoc]
+    · cases sh.hasPeriods <;> simp [List.mem_replicate]
+    · cases sh.hasExtents <;> simp [List.mem_replicate]
+  rw [e] at hi hj
+  by_cases hjl : j < pre.length
+  · by_cases hil : i < pre.length
+    · rw [List.getElem?_append_left hil] at hi
+      exact absurd (List.mem_of_getElem? hi) h1
+    · omega
+  · rw [List.getElem?_append_right (by omega)] at hj
+    exact absurd (List.mem_of_getElem? hj) h2
+
+example : (coreSteps ⟨2, true, 1, false⟩)[7]? = some .ppx ∧ (coreSteps ⟨2, true, 1, false⟩)[6]? = some .pky := by decide
+
+/-- … which the call order as found violates: 1-d table, the coefficients (call 1) precede `TYPE` and `ORDER0`. -/
+theorem C08_keys_after_data_as_found :
+    ∃ (sh : Shape) (i j : Nat), i < j ∧ (coreStepsDataFirst sh)[i]? = some Step.ppx ∧
+      (coreStepsDataFirst sh)[j]? = some Step.pky :=
+  ⟨⟨1, false, 0, false⟩, 1, 2, by decide, by decide, by decide⟩
+
 /-! Part 2: bytes.  `PsV.C08.encode` is compared byte for byte with the file cfitsio writes, `PsV.C08.readBytes`
     verdict for verdict with the real reader on every crash-state file, on every run. -/
 
@@ -134,7 +166,8 @@ theorem C08_prefix_safe_partial (t : Table) (n : Nat) (hrt : readCoreBytes (enco
     rw [hrt] at h2
     exact (Option.some.inj h2).symm
 
-/-- smallest table: one dimension, order 0, two knots, one coefficient, extents -/
+/-- smallest table: one dimension, order 0, two knots (1.0, 2.0: finite, increasing, `2 = 2·order+2`), one coefficient
+    (`1 = nknots − order − 1`), extents -/
 def tinyTable : Table :=
   ⟨[0], [1], [1065353216], [[4607182418800017408, 4611686018427387904]], some [4607182418800017408, 4611686018427387904], []⟩
 
@@ -145,6 +178,21 @@ theorem C08_roundtrip_instance : readCoreBytes (encode tinyTable) = some tinyTab
 set_option maxRecDepth 100000 in
 /-- hypotheses of `C08_reader_prefix_stable` are satisfiable: the file cut after the knot HDU (no `EXTENTS`) loads -/
 example : readCoreBytes ((encode tinyTable).take 11520) = some tinyTable.core := by decide
+
+/-! The reader's validation (`/repo` 6b9ba04) is part of `readCoreBytes`: it is not vacuous — -/
+set_option maxRecDepth 100000 in
+/-- the file of `tinyTable` with its two knots exchanged (2.0, 1.0: decreasing) is rejected, -/
+example : readCoreBytes (encode { tinyTable with knots := [[4611686018427387904, 4607182418800017408]] }) = none := by decide
+set_option maxRecDepth 100000 in
+/-- and so is the file which declares order 1 for the same two knots and one coefficient (`nknots < 2·order+2`). -/
+example : readCoreBytes (encode { tinyTable with orders := [1] }) = none := by decide
+/-- binary64 patterns: NaN and ±∞ are not finite, the largest finite number is; `-0.0` and `+0.0` are equal,
+    `-1.0 < -0.0`, the smallest negative subnormal is below `+0.0`, `1.0 < 2.0`. -/
+example : dblFinite 0x7ff8000000000000 = false ∧ dblFinite 0x7ff0000000000000 = false ∧ dblFinite 0xfff0000000000000 = false ∧
+    dblFinite 0x7ff0000000000001 = false ∧ dblFinite 0x7fefffffffffffff = true ∧ dblFinite 0 = true ∧
+    dblLt 0x8000000000000000 0 = false ∧ dblLt 0 0x8000000000000000 = false ∧ dblLt 0xbff0000000000000 0x8000000000000000 = true ∧
+    dblLt 0x8000000000000001 0 = true ∧ dblLt 0x3ff0000000000000 0x4000000000000000 = true ∧
+    dblLt 0x4000000000000000 0x3ff0000000000000 = false := by decide
 
 /-- C08_prefix_safe, full strength, for `tinyTable`: every byte prefix is rejected or loads equal. -/
 theorem C08_prefix_safe_tiny (n : Nat) :
